@@ -248,9 +248,18 @@ func zzxAcceptStep(t *zzT) {
 	finBefore, _ := n.chain.DataAccess().GetFinalizedHeight()
 
 	// ---- the step, as Executer.process does for a valid successor ----
+	// the step may re-apply a block from the temp store (sync-failure restore: processValidated(…, removeTemp=true));
+	// a temp copy at this height is then stored beforehand and must be gone, within the same batch, afterwards
+	removeTemp := t.Param("removeTemp", 0) == 1
+	tempKey := bytes.Join(blockchain.DBPrefixToBytes(blockchain.DBPrefix(7)), bytes.FromUint32(h.Height))
+	if removeTemp {
+		n.database.Set(tempKey, b.Encode())
+		db.ZZMonitorReset(n.database)
+		before = db.ZZDump(n.database)
+	}
 	err := b.Validate()
 	if err == nil {
-		err = n.ex.processValidated(context.Background(), b, false, false)
+		err = n.ex.processValidated(context.Background(), b, false, removeTemp)
 	}
 	writes, direct, batchOps := db.ZZMonitor(n.database)
 	if err == nil {
@@ -278,6 +287,10 @@ func zzxAcceptStep(t *zzT) {
 			t.Assert(n.abi.writesAtCommit == 0, "commit: application commit precedes the database write")
 		}
 		t.Assert(batchOps != 0, "commit: the batch carries the block")
+		if removeTemp {
+			_, still := n.database.Get(tempKey)
+			t.Assert(!still, "a block re-applied from the temp store leaves no temp copy behind")
+		}
 		t.Assert(n.chain.LastBlock().Header.Height == tip.Height+1 && bytes.Equal(n.chain.LastBlock().Header.ID, h.ID), "accepted block is the new tip")
 		// C04.b
 		_, precommitted, _ := n.heights()
@@ -772,3 +785,13 @@ func zzH_C13_genesis_atomic(t *zzT) {
 	t.Assert(herr == nil, "after the step the consensus store is initialised")
 	t.Reach("applied")
 }
+
+// C13 for the sync-failure restore path: a block re-applied from the temp store (processValidated with
+// removeTemp) — the block, its indexes, the consensus state AND the removal of its temp copy are one batch write.
+// (seed C13-9 deleted the temp copy with a separate direct write after the batch.)
+//
+//zz:opt loop=80 lockdiscipline=off require=accepted
+//zz:stub time.Now zzxStubNow
+//zz:quick extra=2 onlydev=0 removeTemp=1 budget=300s
+//zz:thorough extra=4 onlydev=0 removeTemp=1 budget=30m
+func zzH_C13_restore_from_temp_atomic(t *zzT) { zzxAcceptStep(t) }
